@@ -549,7 +549,11 @@ func (vc *VC) execInstr(fr *Frame, in ssa.Instruction, st *State) {
 	case *ssa.Field:
 		base := vc.operand(fr, x.X)
 		term, t := vc.project(base.T, x.X.Type(), []Step{{Field: x.Field}})
-		fr.env[x] = vc.termVal(term, t)
+		fv := vc.termVal(term, t)
+		if _, isFn := t.Underlying().(*types.Signature); isFn {
+			fv.FnField = fieldFnKey(x.X.Type(), x.Field)
+		}
+		fr.env[x] = fv
 	case *ssa.IndexAddr:
 		idx := vc.operand(fr, x.Index).T
 		base := vc.operand(fr, x.X)
@@ -735,6 +739,11 @@ func (vc *VC) unop(fr *Frame, x *ssa.UnOp, st *State) {
 		vc.assume(st, vc.rangeAssume(v))
 		vc.assume(st, vc.allocBound(st, v))
 		v.Global = pv.Global
+		if fa, ok := x.X.(*ssa.FieldAddr); ok {
+			if _, isFn := x.Type().Underlying().(*types.Signature); isFn {
+				v.FnField = fieldFnKey(fa.X.Type(), fa.Field)
+			}
+		}
 		fr.env[x] = v
 	case token.NOT:
 		fr.env[x] = Val{T: fmt.Sprintf("(not %s)", vc.operand(fr, x.X).T), Typ: x.Type()}
@@ -1158,4 +1167,27 @@ func (vc *VC) lookup(fr *Frame, x *ssa.Lookup, st *State) Val {
 		return Val{Tuple: []Val{v, {T: has, Typ: types.Typ[types.Bool]}}, Typ: x.Type()}
 	}
 	return v
+}
+
+// fieldFnKey names a function-typed struct field: "<pkgpath>::T.f" (contracts of kind fieldfn).
+func fieldFnKey(t types.Type, field int) string {
+	if p, ok := t.Underlying().(*types.Pointer); ok {
+		t = p.Elem()
+	}
+	st, ok := t.Underlying().(*types.Struct)
+	if !ok {
+		return ""
+	}
+	name := ""
+	pkg := ""
+	switch n := types.Unalias(t).(type) {
+	case *types.Named:
+		name = n.Obj().Name()
+		if n.Obj().Pkg() != nil {
+			pkg = n.Obj().Pkg().Path()
+		}
+	default:
+		return ""
+	}
+	return pkg + "::" + name + "." + st.Field(field).Name()
 }
